@@ -47,6 +47,23 @@ def powerGas (mixSurface alpha beta gamma barFactor : α) (pressure temperature 
     let m := 1 / sqrt mixSurface + 1 / sqrt ad
     (1 / m) * (1 / m)) pressure temperature
 
+/-- `PowerGas.initialize_profile`, the coefficient look-up: a constructor argument left `None` is replaced by the
+    coefficient `check_known` tabulates for the molecule (`none` when the molecule is not tabulated) -/
+def powerCoeff (given known : Option α) : Option α :=
+  match given with
+  | some v => some v
+  | none => known
+
+/-- `PowerGas(mix_ratio_surface, alpha, beta, gamma)` with optional arguments; `known = (a, b, g, A)` is the tuple
+    `check_known(profile_type)` returns (four `None` for an unknown molecule).  A coefficient that is neither given nor
+    tabulated makes `initialize_profile` raise ValueError (`error`). -/
+def powerGasAuto (ms alpha beta gamma : Option α) (known : Option α × Option α × Option α × Option α)
+    (barFactor : α) (pressure temperature : List α) : Outcome (List α) :=
+  match powerCoeff ms known.2.2.2, powerCoeff alpha known.1, powerCoeff beta known.2.1,
+      powerCoeff gamma known.2.2.1 with
+  | some m, some a, some b, some g => .ok (powerGas m a b g barFactor pressure temperature)
+  | _, _, _, _ => .error
+
 variable [NatConv α]
 
 /-- `ArrayGas.initialize_profile`:
